@@ -109,12 +109,36 @@ Definition refuse_ok (k : case) : bool :=
   then match changed_paths k with [] => true | _ => false end
   else true.
 
+(* (round 4) a function tag that lies inside a #static folder (and is neither replaced by #copy nor by an emitted JSON file) keeps
+   every foreign entry through a successful build (C11_shielded_tag_entries_kept; the own entries are filtered and re-added) *)
+Definition tag_keep_ok (k : case) : bool :=
+  match k_crash k, k_res k, gate (k_v k) (k_cfg k) (k_hdr k) (k_out k) with
+  | None, RDone, Success o =>
+      forallb (fun p =>
+        negb (excepted (k_hdr k) p) ||
+        match copy_file (k_hdr k) p with
+        | Some _ => true
+        | None =>
+            existsb (path_eqb p) (map fst (out_files (k_cfg k) (k_hdr k) o)) ||
+            match file_at (k_before k) p with
+            | Some (Tag vs) =>
+                match assoc_path p (k_after k) with
+                | Some (NFile (Tag ws)) => forallb (fun v => own_entry (k_cfg k) v || mem v ws) vs
+                | _ => false
+                end
+            | _ => true
+            end
+        end)
+        [load_path (k_cfg k); tick_path (k_cfg k)]
+  | _, _, _ => true
+  end.
+
 Definition code (k : case) : nat :=
   let ops := expected_ops k in
   (if list_eqb op_eqb ops (k_trace k) then 0 else 1) +
   (match exec ops (k_before k) with Some t => if snap_ok t (k_after k) then 0 else 2 | None => 2 end) +
   (match k_crash k with Some _ => 0 | None => if result_eqb (expected_res k) (k_res k) then 0 else 4 end) +
   (if terr_ok k then 0 else 8) + (if static_ok k then 0 else 16) + (if noop_ok k then 0 else 32) +
-  (if refuse_ok k then 0 else 64).
+  (if refuse_ok k then 0 else 64) + (if tag_keep_ok k then 0 else 128).
 
 Definition codes (l : list case) : list nat := map code l.
